@@ -592,6 +592,53 @@ func checkMain(args []string) {
 	cond := sync.NewCond(&mu)
 	active := 0
 	timedOut := false
+	// entries are explored one after the other, each within a fair share of
+	// the remaining budget (otherwise a heavy entry starves the others); an
+	// entry whose share runs out is resumed in a later round with what the
+	// others left over
+	order := make([]int, len(results))
+	for i := range order {
+		order[i] = i
+	}
+	pos := 0
+	cur := order[0]
+	var nextRound []int
+	activeBy := make([]int, len(results))
+	shareEnd := t0.Add(time.Duration(ts.BudgetS) * time.Second / time.Duration(len(results)))
+	hasItems := func(ei int) bool {
+		for i := len(queue) - 1; i >= 0; i-- {
+			if queue[i].ei == ei {
+				return true
+			}
+		}
+		return false
+	}
+	advance := func() {
+		for {
+			has := hasItems(cur)
+			if time.Now().Before(shareEnd) && (has || activeBy[cur] > 0) {
+				return
+			}
+			if has || activeBy[cur] > 0 {
+				if !time.Now().Before(deadline) {
+					return // the global deadline handling takes over
+				}
+				nextRound = append(nextRound, cur) // out of share, work left
+			}
+			pos++
+			if pos >= len(order) {
+				if len(nextRound) == 0 {
+					// nothing left anywhere (or only work in flight)
+					pos = len(order) - 1
+					return
+				}
+				order, nextRound, pos = nextRound, nil, 0
+			}
+			cur = order[pos]
+			left := len(order) - pos
+			shareEnd = time.Now().Add(time.Until(deadline) / time.Duration(left))
+		}
+	}
 	// watchdog: a work item that overruns the budget (slow solver queries) is cut off
 	watchdog := time.AfterFunc(time.Until(deadline)+25*time.Second, func() {
 		mu.Lock()
@@ -615,10 +662,29 @@ func checkMain(args []string) {
 			defer wg.Done()
 			for {
 				mu.Lock()
-				for len(queue) == 0 && active > 0 {
+				curHas := func() int {
+					for i := len(queue) - 1; i >= 0; i-- {
+						if queue[i].ei == cur {
+							return i
+						}
+					}
+					return -1
+				}
+				n := -1
+				for {
+					advance()
+					n = curHas()
+					if n >= 0 || (len(queue) == 0 && active == 0) {
+						break
+					}
+					if active == 0 {
+						// only items of entries that can no longer run are left
+						queue = nil
+						break
+					}
 					cond.Wait()
 				}
-				if len(queue) == 0 {
+				if n < 0 {
 					mu.Unlock()
 					cond.Broadcast()
 					return
@@ -640,10 +706,9 @@ func checkMain(args []string) {
 					cond.Broadcast()
 					return
 				}
-				// take up to a small batch of prefixes of one entry (LIFO = depth first)
-				n := len(queue) - 1
+				// take up to a small batch of prefixes of the current entry (LIFO = depth first)
 				it := queue[n]
-				queue = queue[:n]
+				queue = append(queue[:n], queue[n+1:]...)
 				if spec.PrefixBudget > 0 {
 					k := prefixKey(it.ei, it.prefix)
 					if prefixPaths[k] > spec.PrefixBudget {
@@ -669,19 +734,25 @@ func checkMain(args []string) {
 					queue = queue[:len(queue)-1]
 				}
 				active++
+				activeBy[it.ei]++
 				r := results[it.ei]
 				wit := 0
 				if len(r.Witnesses) < 2 {
 					wit = 1
+				}
+				dl := deadline
+				if shareEnd.Before(dl) {
+					dl = shareEnd
 				}
 				mu.Unlock()
 				budget := 40
 				if 3*len(batch) > budget {
 					budget = 3 * len(batch)
 				}
-				rsp, err := w.do(workReq{Pkg: r.Entry.Pkg, Fn: r.Entry.Fn, Start: batch, Budget: budget, Params: r.Params, Wit: wit, Deadline: deadline.Unix()})
+				rsp, err := w.do(workReq{Pkg: r.Entry.Pkg, Fn: r.Entry.Fn, Start: batch, Budget: budget, Params: r.Params, Wit: wit, Deadline: dl.Unix()})
 				mu.Lock()
 				active--
+				activeBy[it.ei]--
 				if err != nil || rsp.Err != "" {
 					msg := rsp.Err
 					if err != nil {
